@@ -327,6 +327,9 @@ def shrink(prop, case, hs, case_timeout, rounds=12, budget_s=240):
             bad, _, _ = evaluate(prop, cands, [hs], case_timeout)
         except RuntimeError:
             break
+        # never slide from an unexplained disagreement into a recorded one
+        known = load_findings(prop.ID)
+        bad = [b for b in bad if prop.classify(b[0], b[2], b[3]) not in known]
         if not bad:
             break
         # smallest failing candidate
